@@ -224,6 +224,10 @@ bool XmlNode::isComment() const
 
 std::string XmlNode::name() const
 {
+    // Some node types (e.g. CDATA sections) do not have a name.
+    if (mPimpl->mXmlNodePtr->name == nullptr) {
+        return {};
+    }
     return reinterpret_cast<const char *>(mPimpl->mXmlNodePtr->name);
 }
 
@@ -275,8 +279,13 @@ bool XmlNode::equals(const XmlNodePtr &node) const
 
 XmlNodePtr XmlNode::firstChild() const
 {
-    xmlNodePtr child = mPimpl->mXmlNodePtr->children;
     XmlNodePtr childHandle = nullptr;
+    // The child of an entity reference node is the declaration of the entity
+    // (a different libxml2 structure), not content of the document.
+    if (mPimpl->mXmlNodePtr->type == XML_ENTITY_REF_NODE) {
+        return childHandle;
+    }
+    xmlNodePtr child = mPimpl->mXmlNodePtr->children;
     while (child != nullptr) {
         childHandle = std::make_shared<XmlNode>();
         childHandle->setXmlNode(child);
